@@ -6,7 +6,13 @@ Property theorems about M-Sort (`DefconModel/NameSort.lean`, the executable mode
 Helper lemmas: `Lemmas/NameSort.lean`; spec-side definitions: `Spec/NameSort.lean`; the module
 constants of the code as regenerated on every check: `Gen/SortTables.lean`.
 
-Every theorem quantifies over ALL look-up functions (`env`: unicode, pseudo-unicode, category, script,
+Section 5 (round 3) is about M-Lookups (`DefconModel/NameLookups.lean`, the executable model of the look-ups themselves:
+`uniData.py` 178-407 and the functions of `unicodeTools.py` they use) and about the COMPOSED model `NameLookups.sortFont`
+(M-Sort over the look-ups M-Lookups derives from the font's glyph names, the glyphs' code points, the cmap and per-code-point
+facts of the Unicode database).  Helper lemmas: `Lemmas/NameLookups.lean`; spec side: `Spec/NameLookups.lean`; regenerated:
+`Gen/OpenClose.lean` (the open/close pair text and dicts), `Gen/SortCalls.lean` (who refers to what inside class UnicodeData).
+
+Every theorem of sections 1-4 quantifies over ALL look-up functions (`env`: unicode, pseudo-unicode, category, script,
 block, close relative, font membership, decomposition base, cmap), ALL name lists (duplicates, names the
 font does not have) and ALL descriptor lists (any length, any mix of the 10 public and 5 private types,
 ascending/descending, pseudo-unicodes on/off).
@@ -18,6 +24,9 @@ and nothing else); the harness checks them on the real code on every call it mak
 import DefconModel.Lemmas.NameSort
 import DefconModel.Lemmas.NameSortTables
 import DefconModel.Lemmas.NameSortMagnets
+import DefconModel.Lemmas.NameLookups
+import DefconModel.Gen.OpenClose
+import DefconModel.Gen.SortCalls
 
 namespace DefconModel.Props.C20
 open DefconModel DefconModel.NameSort List
@@ -301,6 +310,256 @@ theorem partners_before_fix_violated :
 /-- the canned sort on a list whose bracket partner is in the font but not in the list: nothing is inserted -/
 example : sortGlyphNames demoEnv Gen.SortTables.tables [⟨.cannedDesign, true, true⟩] ["parenleft", "a.alt", "A", "A"] =
     ["A", "A", "parenleft", "a.alt"] := by
+  decide +kernel
+
+/-! ## 5. The look-ups the sorts rely on, derived from the font, the cmap and the Unicode tables (M-Lookups)
+
+`NameLookups.envOf db s` computes every look-up of section 1-4's `env` from plain data: the font's glyph names, the
+code points of each glyph, the `UnicodeData` dict (`s : UData`), and per-code-point facts of the Unicode database with
+the open/close tables (`db : UniDB`).  `NameLookups.sortFont db s T ds names` is the composed model of
+`font.unicodeData.sortGlyphNames(names, ds)`. -/
+
+open NameLookups
+
+/-- The open→close and close→open tables the model looks relatives up in are the ones the code builds: the loop that
+loads `_openClosePairText` (first pair of an opener / of a closer wins), run on the pairs as they stand in the text
+of the code as it is now, gives exactly the two dicts of the imported module. -/
+theorem open_close_tables_match_code :
+    loadOpenClose Gen.OpenClose.pairs = (Gen.OpenClose.openToClose, Gen.OpenClose.closeToOpen) := by
+  decide +kernel
+
+/-- the hand-made exceptions of the text: U+2019 closes three openers and opens back to the first of them only -/
+example : AL.get? Gen.OpenClose.openToClose 0x201A = some 0x2019 ∧ AL.get? Gen.OpenClose.openToClose 0x201B = some 0x2019 ∧
+    AL.get? Gen.OpenClose.closeToOpen 0x2019 = some 0x2018 := by decide +kernel
+
+/-- A glyph that has a code point answers it as its pseudo-unicode too: pseudo-unicodes only ever fill gaps. -/
+theorem pseudo_unicode_of_encoded_is_unicode (s : UData) (n : Name) (v : Nat) (h : unicodeFor s n = some v) :
+    pseudoUnicodeFor s n = some v :=
+  pseudo_of_unicode s n v h
+
+example : unicodeFor demoFont "odd.alt" = some 65 ∧ pseudoUnicodeFor demoFont "odd.alt" = some 65 := by decide +kernel
+
+/-- What the code guarantees for `a.alt`, `a_b`, `a_b.alt`, `a.alt.ss01`, `a.alt_b.sc` …: a name made of a base name
+`a` (not empty, no "." and no "_" in it), a "." or a "_", and ANYTHING behind it, that has no code point of its own,
+gets as pseudo-unicode exactly the unicode of the glyph `a` (and none when `a` is no glyph of the font or has none) —
+whatever stands behind the first separator. -/
+theorem pseudo_unicode_stable_under_suffix (s : UData) (a : Name) (sep : Char) (rest : String) (ha : IsBase a)
+    (hs : sep = '.' ∨ sep = '_') (hn : unicodeFor s (derived a sep rest) = none) :
+    pseudoUnicodeFor s (derived a sep rest) = unicodeFor s a :=
+  pseudo_derived s a sep rest ha hs hn
+
+example : IsBase "a" ∧ derived "a" '_' "a.alt" = "a_a.alt" ∧ unicodeFor demoFont "a_a.alt" = none ∧
+    pseudoUnicodeFor demoFont "a_a.alt" = some 97 ∧ pseudoUnicodeFor demoFont "a.alt" = some 97 ∧
+    pseudoUnicodeFor demoFont "a_a" = some 97 ∧ pseudoUnicodeFor demoFont "a.alt.ss01" = some 97 ∧
+    pseudoUnicodeFor demoFont "a.sc_parenleft.alt" = some 97 := by decide +kernel
+
+/-- … so two unencoded variants of one base name always agree, whatever their suffixes. -/
+theorem pseudo_unicode_same_for_all_variants (s : UData) (a : Name) (sep₁ sep₂ : Char) (rest₁ rest₂ : String)
+    (ha : IsBase a) (h₁ : sep₁ = '.' ∨ sep₁ = '_') (h₂ : sep₂ = '.' ∨ sep₂ = '_')
+    (hn₁ : unicodeFor s (derived a sep₁ rest₁) = none) (hn₂ : unicodeFor s (derived a sep₂ rest₂) = none) :
+    pseudoUnicodeFor s (derived a sep₁ rest₁) = pseudoUnicodeFor s (derived a sep₂ rest₂) := by
+  rw [pseudo_derived s a sep₁ rest₁ ha h₁ hn₁, pseudo_derived s a sep₂ rest₂ ha h₂ hn₂]
+
+example : unicodeFor demoFont (derived "aacute" '.' "alt") = none ∧ unicodeFor demoFont (derived "aacute" '_' "a") = none ∧
+    pseudoUnicodeFor demoFont "aacute.alt" = some 225 := by decide +kernel
+
+/-- A name without "." and "_" gets no pseudo-unicode beyond its own unicode … -/
+theorem pseudo_unicode_plain (s : UData) (n : Name) (hd : hasDot n = false) (hu : hasUnderscore n = false) :
+    pseudoUnicodeFor s n = unicodeFor s n :=
+  pseudo_of_plain s n hd hu
+
+/-- … and neither does a name that starts with "." or "_" (`.notdef`, `.notdef.alt`, `_part`). -/
+theorem pseudo_unicode_hidden (s : UData) (n : Name) (h : startsDot n = true ∨ startsUnderscore n = true) :
+    pseudoUnicodeFor s n = unicodeFor s n :=
+  pseudo_of_hidden s n h
+
+example : startsDot ".notdef.alt" = true ∧ pseudoUnicodeFor demoFont ".notdef.alt" = none ∧
+    startsUnderscore "_part" = true ∧ pseudoUnicodeFor demoFont "_part" = none := by decide +kernel
+
+/-- A pseudo-unicode is never invented: it is the first code point of a glyph of the font (the name itself, or the
+part of it before the first "." and "_"). -/
+theorem pseudo_unicode_is_a_unicode_of_the_font (s : UData) (n : Name) (v : Nat) (h : pseudoUnicodeFor s n = some v) :
+    ∃ g ∈ s.names, unicodeFor s g = some v := by
+  rcases pseudo_some s n v h with h1 | ⟨_, h2⟩
+  · exact ⟨n, (unicodeFor_some s n v h1).1, h1⟩
+  · exact ⟨stemOf n, (unicodeFor_some s _ v h2).1, h2⟩
+
+/-- A close relative that is returned is a glyph name of the font (the cmap listing only glyphs of the font):
+either the first glyph on the closing code point or — with pseudo-unicodes — that glyph's variant with the suffix of
+the name asked about, which is used only after `in font` said yes. -/
+theorem close_relative_in_font (db : UniDB) (s : UData) (hw : CmapWF s) (n : Name) (p : Bool) (r : Name)
+    (h : closeRelativeFor db s n p = some r) : r ∈ s.names :=
+  openCloseSearch_mem s hw _ n p r h
+
+/-- … and so is an open relative. -/
+theorem open_relative_in_font (db : UniDB) (s : UData) (hw : CmapWF s) (n : Name) (p : Bool) (r : Name)
+    (h : openRelativeFor db s n p = some r) : r ∈ s.names :=
+  openCloseSearch_mem s hw _ n p r h
+
+example : CmapWF demoFont ∧ closeRelativeFor demoDB demoFont "parenleft.sc" true = some "parenright.sc" ∧
+    closeRelativeFor demoDB demoFont "parenleft.alt" true = some "parenright" ∧
+    closeRelativeFor demoDB demoFont "parenleft.sc" false = none ∧
+    openRelativeFor demoDB demoFont "parenright" false = some "parenleft" := by decide +kernel
+
+/-- What the relative is: the name asked about has a (pseudo-)unicode `v`, the table pairs `v` with `c`, `g` is the
+first glyph the cmap lists for `c`, and the answer is `g` or, with pseudo-unicodes, `g` + "." + the suffix of the name
+(then a glyph of the font). -/
+theorem close_relative_is_the_partner (db : UniDB) (s : UData) (n : Name) (p : Bool) (r : Name)
+    (h : closeRelativeFor db s n p = some r) :
+    ∃ v c g, valueOf s p n = some v ∧ AL.get? db.openToClose v = some c ∧ nameForUnicode s c = some g ∧
+      (r = g ∨ (p = true ∧ r = withSuffix g (suffixOf n) ∧ r ∈ s.names)) :=
+  openCloseSearch_some s _ n p r h
+
+/-- `decompositionBaseForGlyphName` answers the name it was asked about (nothing found) or a glyph name of the font
+(the first glyph on the base code point, or its variant with the name's suffix when the font has one) — and never
+fails, the cmap having no empty entry. -/
+theorem decomposition_base_in_font_or_none (db : UniDB) (s : UData) (hw : CmapWF s) (n : Name) (p : Bool) :
+    ∃ r, decompositionBaseFor db s n p = .ok r ∧ (r = n ∨ r ∈ s.names) :=
+  decompositionBaseFor_cases db s hw n p
+
+example : decompositionBaseFor demoDB demoFont "aacute.alt" true = .ok "a.alt" ∧
+    decompositionBaseFor demoDB demoFont "aacute.alt" false = .ok "aacute.alt" ∧
+    decompositionBaseFor demoDB demoFont "aringacute" false = .ok "a" ∧
+    decompositionBaseFor demoDB demoFont "zzz" true = .ok "zzz" := by decide +kernel
+
+/-- … and the base the `decompositionBase` SORT files a name under (its own derivation: `unicodeTools.decompositionBase`,
+then the cmap, then the suffix up to the second ".") is a glyph name of the font whenever there is one. -/
+theorem sort_decomposition_base_in_font (db : UniDB) (s : UData) (hw : CmapWF s) (p : Bool) (n b : Name)
+    (h : decompKey (envOf db s) p n = some b) : b ∈ s.names :=
+  decompKey_mem db s hw p n b h
+
+example : decompKey (envOf demoDB demoFont) true "aacute.alt" = some "a.alt" ∧
+    decompKey (envOf demoDB demoFont) false "aringacute" = some "a" := by decide +kernel
+
+/-- `unicodeTools.decompositionBase` follows the chain (ǻ → å → a: two links in one call) and answers `-1` or a code
+point, `-1` for every value that is no code point. -/
+theorem decomposition_base_total (db : UniDB) (fuel v : Nat) :
+    (decompositionBase db fuel v = -1 ∨ 0 ≤ decompositionBase db fuel v) ∧
+    (v > maxCodePoint → decompositionBase db fuel v = -1) :=
+  ⟨decompositionBase_nonneg db fuel v, decompositionBase_out_of_range db fuel v⟩
+
+example : decompositionBase demoDB decompFuel 507 = 97 ∧ decompositionBase demoDB decompFuel 170 = -1 ∧
+    decompositionBase demoDB decompFuel 97 = -1 := by decide +kernel
+
+/-- No look-up changes the cmap, the forced-unicode tables or anything else — except ONE:
+`forcedUnicodeForGlyphName` (`Ask.forcedUnicode`), which allocates.  Every other public look-up (`name in font`,
+unicode, glyph name for unicode, pseudo-unicode, glyph name for forced unicode, script, block, category, decomposition
+base, close and open relative) leaves the state exactly as it was. -/
+theorem lookups_pure (db : UniDB) (s : UData) (a : Ask) (h : a.reads) : (ask db s a).1 = s :=
+  ask_reads_state db s a h
+
+example : (Ask.closeRelative "parenleft.sc" true).reads ∧ (Ask.nameForForced 0xE000).reads ∧
+    ¬ (Ask.forcedUnicode "a.alt").reads := by decide
+
+/-- The one that allocates writes the two forced tables only: glyph names, the glyphs' code points and the cmap are
+the same after any call, and after any sequence of calls. -/
+theorem forced_unicode_keeps_font_and_cmap (db : UniDB) (s : UData) (as : List Ask) :
+    (askAll db s as).1.names = s.names ∧ (askAll db s as).1.unicodes = s.unicodes ∧
+    (askAll db s as).1.cmap = s.cmap :=
+  askAll_frame db s as
+
+/-- … it does not write at all for a glyph that has a code point (the answer is that code point) … -/
+theorem forced_unicode_of_encoded (s : UData) (n : Name) (v : Nat) (h : unicodeFor s n = some v) :
+    forcedUnicodeFor s n = (s, some v) := by
+  simp [forcedUnicodeFor, h]
+
+/-- … and what it allocates is a private-use code point no other name was forced onto (it does NOT look at the cmap:
+a glyph that really carries U+E000 does not stop U+E000 from being handed out — the code as it is). -/
+theorem forced_unicode_allocates_fresh_private_use (s : UData) (n : Name) (v : Nat)
+    (hu : unicodeFor s n = none) (hf : AL.get? s.forcedByName n = none) (h : (forcedUnicodeFor s n).2 = some v) :
+    v ∉ AL.keys s.forcedByCode ∧
+    ((pua1Min ≤ v ∧ v ≤ pua1Max) ∨ (pua2Min ≤ v ∧ v ≤ pua2Max) ∨ (pua3Min ≤ v ∧ v ≤ pua3Max)) ∧
+    AL.get? (forcedUnicodeFor s n).1.forcedByName n = some v ∧ AL.get? (forcedUnicodeFor s n).1.forcedByCode v = some n := by
+  unfold forcedUnicodeFor at h ⊢
+  rw [hu] at h ⊢
+  simp only [hf] at h ⊢
+  cases hp : findPUA (AL.keys s.forcedByCode) puaFuel pua1Min with
+  | none => rw [hp] at h; cases h
+  | some w =>
+    rw [hp] at h
+    simp only [Option.some.injEq] at h
+    subst h
+    exact ⟨findPUA_fresh _ _ _ _ hp, findPUA_private _ _ _ _ hp, by simp, by simp⟩
+
+example : (forcedUnicodeFor demoFont "a.alt").2 = some 0xE000 ∧
+    (forcedUnicodeFor (forcedUnicodeFor demoFont "a.alt").1 "zzz").2 = some 0xE001 ∧
+    (forcedUnicodeFor (forcedUnicodeFor demoFont "a.alt").1 "a.alt") = ((forcedUnicodeFor demoFont "a.alt").1, some 0xE000) := by
+  decide +kernel
+
+/-- NO SORT ALLOCATES, model side: the look-ups a sort is computed from read the glyph names, the glyphs' code points
+and the cmap and nothing else — so whatever look-ups were made before (allocating ones included), every sort type and
+every combination of them returns what it would have returned without them … -/
+theorem sort_does_not_allocate (db : UniDB) (s : UData) (as : List Ask) (T : Tables) (ds : List (Desc SortType))
+    (names : List Name) : sortFont db (askAll db s as).1 T ds names = sortFont db s T ds names := by
+  have h := askAll_frame db s as
+  unfold sortFont
+  rw [envOf_congr db s _ h.1 h.2.1 h.2.2]
+
+example : (askAll demoDB demoFont [.forcedUnicode "a.alt", .forcedUnicode "zzz"]).1.forcedByCode = [(0xE000, "a.alt"), (0xE001, "zzz")] := by
+  decide +kernel
+
+/-- … code side, over the table of references regenerated from the source AST on every check: from `sortGlyphNames`
+(which names every sort method in `typeToMethod`) no chain of `self.…` references reaches `forcedUnicodeForGlyphName`,
+`_loadForcedUnicodeValue`, `_findAvailablePUACode`, the two forced dicts, a mutator of the `UnicodeData` dict, an
+assignment to `self[...]`, `super(...)` or `postNotification`.  (`R` below is that reachable set; it is closed.) -/
+theorem sort_does_not_allocate_in_code :
+    let R := reach Gen.SortCalls.refs 64 ["sortGlyphNames"]
+    "sortGlyphNames" ∈ R ∧ Closed Gen.SortCalls.refs R ∧
+    (∀ p ∈ Gen.SortTables.typeToMethod, p.2 ∈ R) ∧ (∀ m ∈ R, m ∉ writers) := by
+  decide +kernel
+
+/-- The fields of the model's `Env` are the look-ups the sort methods of the code reach, no more and no fewer: every
+method of `UnicodeData` reachable from `sortGlyphNames` is a sort method, one of `envMethods`, or a getter on the way
+to the font; every one of `envMethods` is reached; and of `unicodeTools` exactly the five functions ported into
+`NameLookups` and the three ordered tables are used. -/
+theorem env_fields_match_code :
+    let R := reach Gen.SortCalls.refs 64 ["sortGlyphNames"]
+    (∀ m ∈ R, m ∈ Gen.SortCalls.methods → isSortMethod m = true ∨ m ∈ envMethods ∨ m ∈ parentGetters) ∧
+    (∀ m ∈ envMethods, m ∈ R ∧ m ∈ Gen.SortCalls.methods) ∧
+    (∀ m ∈ R, "unicodeTools.".toList.isPrefixOf m.toList = true → m ∈ unicodeToolsUsed) ∧
+    (∀ m ∈ unicodeToolsUsed, m ∈ R) := by
+  decide +kernel
+
+/-- THE PROPERTY ON THE COMPOSED MODEL, "never more than was given": for every font, cmap and Unicode tables, every
+name list and every descriptor list, the sort computed from them holds no name more often than the input did. -/
+theorem sort_never_adds_composed (db : UniDB) (s : UData) (ds : List (Desc SortType)) (names : List Name) (x : Name) :
+    (sortFont db s Gen.SortTables.tables ds names).count x ≤ names.count x :=
+  sort_never_adds_real (envOf db s) ds names x
+
+/-- THE PROPERTY ON THE COMPOSED MODEL: for EVERY font (glyph names, code points, cmap — no hypothesis on them), every
+Unicode tables whose categories and scripts are those of the ordered tables, every name list and every descriptor list
+the result is a permutation of the input, as soon as the `block` descriptors meet only names whose block is ordered
+(what is left of finding F21a: a name without (pseudo-)unicode has block "No_Block"). -/
+theorem sort_perm_composed (db : UniDB) (s : UData) (hdb : DBOrdered db Gen.SortTables.tables)
+    (ds : List (Desc SortType)) (names : List Name)
+    (hblk : ∀ d ∈ ds, d.type = .basic .block →
+      ∀ n ∈ names, blockFor db s n d.pseudo ∈ Gen.SortTables.orderedBlocks) :
+    (sortFont db s Gen.SortTables.tables ds names).Perm names :=
+  sort_perm_real (envOf db s) ds names
+    (fun n _ p => categoryFor_ordered db s _ hdb default_tags.2.1 n p)
+    (fun n _ p => scriptFor_ordered db s _ hdb default_tags.1 n p)
+    hblk
+
+/-- … in particular for every descriptor list without a `block` descriptor: no hypothesis on font or names at all. -/
+theorem sort_perm_composed_without_block (db : UniDB) (s : UData) (hdb : DBOrdered db Gen.SortTables.tables)
+    (ds : List (Desc SortType)) (names : List Name) (hnb : ∀ d ∈ ds, d.type ≠ .basic .block) :
+    (sortFont db s Gen.SortTables.tables ds names).Perm names :=
+  sort_perm_composed db s hdb ds names (fun d hd ht => absurd ht (hnb d hd))
+
+example : DBOrdered demoDB Gen.SortTables.tables :=
+  tableDB_ordered _ _ _ _ (by decide +kernel) (by decide +kernel)
+
+example : sortFont demoDB demoFont Gen.SortTables.tables [⟨.cannedDesign, true, true⟩]
+      ["aacute.alt", "parenright.sc", "a.alt", "zzz", "parenleft.sc", "a", "aringacute", "A"] =
+    ["A", "a", "aringacute", "zzz", "parenleft.sc", "parenright.sc", "a.alt", "aacute.alt"] := by
+  decide +kernel
+
+/-- F21a on the composed model: a name without a code point has no block, and the `block` sort drops it. -/
+theorem sort_perm_composed_violated :
+    ¬ (sortFont demoDB demoFont Gen.SortTables.tables [⟨.basic .block, true, false⟩] ["A", "a.alt"]).Perm ["A", "a.alt"] := by
+  intro h
+  have := h.length_eq
+  revert this
   decide +kernel
 
 end DefconModel.Props.C20
